@@ -68,6 +68,53 @@ fn run_main(asm: &uiua::Assembly, sentinels: &[uiua::Value], args: &[i64]) -> Re
     }
 }
 
+/// error messages carry the source position of the failing primitive ("3:36: ..."), which legitimately
+/// differs between the try program and the program that runs the handler alone; when an error VALUE
+/// reaches the stack (a handler that catches an error of its own) the position is not part of the outcome
+fn strip_pos(s: &str) -> String {
+    let cs: Vec<char> = s.chars().collect();
+    let mut out = String::new();
+    let mut i = 0;
+    while i < cs.len() {
+        // digits ':' digits ':' ' '
+        let mut j = i;
+        while j < cs.len() && cs[j].is_ascii_digit() {
+            j += 1;
+        }
+        if j > i && j < cs.len() && cs[j] == ':' {
+            let mut k = j + 1;
+            while k < cs.len() && cs[k].is_ascii_digit() {
+                k += 1;
+            }
+            if k > j + 1 && k + 1 < cs.len() && cs[k] == ':' && cs[k + 1] == ' ' {
+                i = k + 2;
+                continue;
+            }
+        }
+        out.push(cs[i]);
+        i += 1;
+    }
+    out
+}
+fn text_of(v: &uiua::Value) -> Option<String> {
+    if let uiua::Value::Char(a) = v {
+        if a.rank() == 1 {
+            return Some(a.elements().collect());
+        }
+    }
+    None
+}
+fn same_vals(a: &[uiua::Value], b: &[uiua::Value]) -> bool {
+    a.len() == b.len()
+        && a.iter().zip(b).all(|(x, y)| {
+            x == y
+                || match (text_of(x), text_of(y)) {
+                    (Some(p), Some(q)) => strip_pos(&p) == strip_pos(&q),
+                    _ => false,
+                }
+        })
+}
+
 fn main() {
     let mode = std::env::args().nth(1).unwrap_or_default();
     let n: usize = std::env::args().nth(2).and_then(|s| s.parse().ok()).unwrap_or(300);
@@ -228,7 +275,7 @@ fn main() {
                         let same = match (&got, want) {
                             (Ok((a, da)), Ok((b, db))) => {
                                 handler_ran += 1;
-                                a == b && da == db
+                                same_vals(a, b) && da == db
                             }
                             (Err(a), Err(b)) => !a.starts_with("FRAME-MONITOR") && !b.starts_with("FRAME-MONITOR") && !a.starts_with("PANIC") && !b.starts_with("PANIC"),
                             _ => false,
